@@ -1,8 +1,10 @@
 import Frp.Engines.Router
+import Frp.Engines.HttpAuth
 /-! Registry of driver engines (one line per engine). -/
 namespace Frp.Engines
 open Frp.Proto
 def all : List (String × Engine) :=
   [ ("router", router)
+  , ("httpauth", httpauth)
   ]
 end Frp.Engines
